@@ -148,11 +148,221 @@ class Oracle:
         self.stats['mutations_after_clone'] += 1
 
 def run(ctx):
-  D.run_property(ctx, 'C07', Oracle, extra=flag_sweep, focus={D.CLONE, D.DCOPY})
+  D.run_property(ctx, 'C07', Oracle, extra=extras, focus={D.CLONE, D.DCOPY})
+
+def extras(ctx):
+  flag_sweep(ctx)
+  tuple_sweep(ctx)
+  scope_sweep(ctx)
+
+# ----------------------------------------------------------------------------------------------------
+# Oracle-only sweeps over values the SymCore model does not contain.
+def mutables(x, out=None, _seen=None):
+  """Every mutable object reachable from x: symbolic nodes, plain lists / dicts, opaque objects -- descending through the
+  items of symbolic nodes, through tuples and through plain containers.  Returns {id: object}."""
+  out = {} if out is None else out
+  _seen = set() if _seen is None else _seen
+  if id(x) in _seen:
+    return out
+  _seen.add(id(x))
+  if D.is_sym(x):
+    out[id(x)] = x
+    for _, v in D.sym_children(x):
+      mutables(v, out, _seen)
+  elif isinstance(x, tuple):
+    for v in x: mutables(v, out, _seen)
+  elif isinstance(x, list):
+    out[id(x)] = x
+    for v in x: mutables(v, out, _seen)
+  elif isinstance(x, dict):
+    out[id(x)] = x
+    for v in x.values(): mutables(v, out, _seen)
+  elif isinstance(x, D.Opq):
+    out[id(x)] = x
+  return out
+
+def deep_view(x):
+  """A structural view of a value (through tuples and plain containers) for before / after comparison."""
+  if D.is_sym(x):
+    return (type(x).__name__, x.is_sealed, x.accessor_writable, x.allow_partial, [(repr(k), deep_view(v)) for k, v in D.sym_children(x)])
+  if isinstance(x, tuple): return ('tuple', [deep_view(v) for v in x])
+  if isinstance(x, list): return ('list', [deep_view(v) for v in x])
+  if isinstance(x, dict): return ('dict', [(repr(k), deep_view(v)) for k, v in x.items()])
+  if isinstance(x, D.Opq): return ('opq', x.tag)
+  return repr(x)
+
+def _mutate_everything(x, _seen=None):
+  """Changes every mutable object reachable from x (in place)."""
+  P = D.pg()
+  _seen = set() if _seen is None else _seen
+  if id(x) in _seen: return
+  _seen.add(id(x))
+  if D.is_sym(x):
+    kids = D.sym_children(x)
+    for _, v in kids: _mutate_everything(v, _seen)
+    with P.as_sealed(False), P.allow_writable_accessors(True):
+      if isinstance(x, P.List): x.append(4242)
+      elif isinstance(x, P.Dict): x['zz_mut'] = 4242
+      else:
+        for k, v in kids:
+          if not D.is_sym(v) and not isinstance(v, (tuple, list, dict)): x.rebind({k: 4242}); break
+  elif isinstance(x, tuple):
+    for v in x: _mutate_everything(v, _seen)
+  elif isinstance(x, list):
+    for v in list(x): _mutate_everything(v, _seen)
+    x.append(4242)
+  elif isinstance(x, dict):
+    for v in list(x.values()): _mutate_everything(v, _seen)
+    x['zz_mut'] = 4242
+  elif isinstance(x, D.Opq):
+    x.tag += 1000
+
+def tuple_values():
+  """Values with tuples (and nested tuples) as list elements / dict values / object fields, holding symbolic and plain mutable values."""
+  P = D.pg()
+  A, B, C = D.classes()
+  def t1(): return ('load', P.Dict(paths=['a', 'b'], cache=False))
+  def t2(): return (P.List([P.Dict(lr=1)]), [1, 2], {'k': [3]}, (D.Opq(1), (P.Dict(deep=1),)))
+  def t3(): return (B(x=P.Dict(a=1), y=[1]), D.Opq(2))
+  for name, mk_t in (('pair', t1), ('nested', t2), ('object', t3)):
+    yield 'List[%s]' % name, lambda mk_t=mk_t: P.List([mk_t(), 3, mk_t()])
+    yield 'Dict{%s}' % name, lambda mk_t=mk_t: P.Dict(x=mk_t(), y=P.Dict(z=mk_t()))
+    yield 'Object(%s)' % name, lambda mk_t=mk_t: B(x=mk_t(), y=P.List([mk_t()]), z=1)
+    yield 'Dict{List[%s]}' % name, lambda mk_t=mk_t: P.Dict(hooks=P.List([mk_t()]), n=1)
+    yield 'sealed List[%s]' % name, lambda mk_t=mk_t: P.List([mk_t()], sealed=True)
+
+DEEP_COPIES = {'clone(deep=True)': lambda v: v.clone(deep=True), 'pg.clone(deep=True)': lambda v: D.pg().clone(v, deep=True),
+               'copy.deepcopy': copy.deepcopy, 'clone().clone(deep=True)': lambda v: v.clone().clone(deep=True)}
+SHALLOW_COPIES = {'clone()': lambda v: v.clone(), 'copy.copy': copy.copy}
+
+def tuple_probe(c):
+  """Runs one (value, copy) pair; returns [(signature, what)]."""
+  P = D.pg()
+  make = dict((n, m) for n, m in tuple_values())[c['value']]
+  how = c['how']
+  deep = how in DEEP_COPIES
+  a = make()
+  before = deep_view(a)
+  b = (DEEP_COPIES if deep else SHALLOW_COPIES)[how](a)
+  out = []
+  if not P.eq(a, b): out.append(('C07/not-equal/%s/tuple-leaf' % how, 'pg.eq(original, copy) is False for %s' % c['value']))
+  if deep_view(a) != before: out.append(('C07/original-modified/%s/tuple-leaf' % how, 'copying changed the original'))
+  shared = set(mutables(a)) & set(mutables(b))
+  if deep and shared:
+    kinds = sorted({type(mutables(a)[i]).__name__ for i in shared})
+    out.append(('C07/deep-shared-mutable/%s/inside-tuple' % how,
+                '%s of %s shares %d mutable object(s) with the original (%s) -- reached through a tuple leaf' % (how, c['value'], len(shared), ', '.join(kinds))))
+  if not deep:
+    # a shallow copy copies every symbolic container OF THE TREE (what a tuple leaf holds is shared with the leaf)
+    ta, tb = {}, {}
+    D.walk(a, lambda x, p, k: ta.__setitem__(id(x), x)); D.walk(b, lambda x, p, k: tb.__setitem__(id(x), x))
+    if set(ta) & set(tb):
+      out.append(('C07/shallow-shared-node/%s/-' % how, 'a shallow copy shares a symbolic container of the tree with the original'))
+  if deep:
+    # independence: change everything below the copy; the original must not move (and vice versa)
+    _mutate_everything(b)
+    if deep_view(a) != before:
+      out.append(('C07/mutation-visible/%s/copy-to-original' % how, 'after mutating everything reachable from the copy of %s the original has changed' % c['value']))
+    a2 = make(); b2 = DEEP_COPIES[how](a2); v2 = deep_view(b2)
+    _mutate_everything(a2)
+    if deep_view(b2) != v2:
+      out.append(('C07/mutation-visible/%s/original-to-copy' % how, 'after mutating everything reachable from the original %s the copy has changed' % c['value']))
+  return out
+
+def tuple_sweep(ctx):
+  n = 0
+  for vname, _ in tuple_values():
+    for how in list(DEEP_COPIES) + list(SHALLOW_COPIES):
+      c = dict(kind='tuple', value=vname, how=how)
+      n += 1
+      ctx.evaluations += 1
+      for sig, what in tuple_probe(c):
+        ctx.hit(sig, what, c)
+  ctx.extra['tuple_sweep'] = dict(oracle_only=True, cases=n, what='tuples (and nested tuples) as list elements / dict values / object fields holding pg.Dict / pg.List / pg.Object, plain lists / dicts '
+                                  'and opaque objects; deep copies: pg.eq, original unchanged, no mutable object shared (descending through tuples and plain containers), '
+                                  'mutation of everything below one copy invisible in the other')
+  ctx.log('tuple sweep (oracle only): %d cases' % n)
+
+# clones made inside scopes keep the flags of every node (typed children included: they are re-applied by the constructor)
+_TYPED = None
+def typed_classes():
+  global _TYPED
+  if _TYPED is None:
+    P = D.pg()
+    @P.members([('x', P.typing.Dict([('a', P.typing.Int())])), ('l', P.typing.List(P.typing.Int(), default=[])),
+                ('d', P.typing.Dict([('n', P.typing.Dict([('m', P.typing.Int(default=0))]))]).noneable())])
+    class Typed(P.Object):
+      pass
+    @P.members([('x', P.typing.Any(default=None))])
+    class Holder(P.Object):
+      pass
+    _TYPED = (Typed, Holder)
+  return _TYPED
+
+def node_flags(x):
+  out = []
+  D.walk(x, lambda n, p, k: out.append((str(n.sym_path), type(n).__name__, n.is_sealed, n.accessor_writable, n.allow_partial)))
+  return out
+
+def scope_values():
+  P = D.pg()
+  Typed, Holder = typed_classes()
+  A, B, C = D.classes()
+  yield 'typed-object', lambda: Typed(x={'a': 1}, l=[1, 2], d={'n': {'m': 3}})
+  yield 'typed-object-partial', lambda: Typed.partial(l=[1])
+  yield 'holder-of-typed', lambda: Holder(x=Typed(x={'a': 1}))
+  yield 'dict-of-typed', lambda: P.Dict(t=Typed(x={'a': 2}), u=[Typed(x={'a': 3})])
+  yield 'typed-list', lambda: P.List([P.Dict(a=1)], value_spec=P.typing.List(P.typing.Dict([('a', P.typing.Int())])))
+  yield 'typed-dict', lambda: P.Dict(a=1, n={'m': 1}, value_spec=P.typing.Dict([('a', P.typing.Int()), ('n', P.typing.Dict([('m', P.typing.Int())]))]))
+  yield 'untyped', lambda: P.Dict(a=P.Dict(b=1, allow_partial=True), l=P.List([A(x=1), [2]], sealed=True))
+  yield 'any-object', lambda: B(x=P.Dict(a=1), y=[P.Dict()], z=C(x=1))
+SCOPES = {
+    'allow_partial(True)': lambda P: P.allow_partial(True), 'allow_partial(False)': lambda P: P.allow_partial(False),
+    'as_sealed(True)': lambda P: P.as_sealed(True), 'as_sealed(False)': lambda P: P.as_sealed(False),
+    'allow_writable_accessors(False)': lambda P: P.allow_writable_accessors(False), 'allow_writable_accessors(True)': lambda P: P.allow_writable_accessors(True),
+    'notify_on_change(False)': lambda P: P.notify_on_change(False), 'enable_type_check(False)': lambda P: P.enable_type_check(False),
+}
+def scope_probe(c):
+  P = D.pg()
+  make = dict(scope_values())[c['value']]
+  v = make()
+  f0 = node_flags(v)
+  out = []
+  try:
+    with SCOPES[c['scope']](P):
+      cl = v.clone(deep=c['deep'])
+  except Exception as e:       # pylint: disable=broad-except
+    return [('C07/clone-raises/%s/%s' % (c['scope'], c['value']), 'clone(deep=%s) of %s inside pg.%s raises %s: %s' % (c['deep'], c['value'], c['scope'], type(e).__name__, str(e)[:80]))]
+  f1 = node_flags(cl)
+  if f1 != f0:
+    a, b = [(x, y) for x, y in zip(f0, f1) if x != y][0] if len(f0) == len(f1) else (len(f0), len(f1))
+    out.append(('C07/flags-in-scope/%s/%s' % (c['scope'], c['value']),
+                'clone(deep=%s) made inside pg.%s: node %s has (sealed, accessor_writable, allow_partial) = %s in the original and %s in the copy' % (
+                    c['deep'], c['scope'], a[0] if isinstance(a, tuple) else '?', a[2:] if isinstance(a, tuple) else a, b[2:] if isinstance(b, tuple) else b)))
+  if not P.eq(v, cl):
+    out.append(('C07/not-equal/%s/%s' % (c['scope'], c['value']), 'the clone made inside pg.%s is not equal to the original' % c['scope']))
+  return out
+
+def scope_sweep(ctx):
+  n = 0
+  for vname, _ in scope_values():
+    for sname in SCOPES:
+      for deep in (False, True):
+        c = dict(kind='scope', value=vname, scope=sname, deep=deep)
+        n += 1
+        ctx.evaluations += 1
+        for sig, what in scope_probe(c):
+          ctx.hit(sig, what, c)
+  ctx.extra['scope_sweep'] = dict(oracle_only=True, exhaustive=True, cases=n, what='8 values (typed and untyped) x 8 scopes x deep / shallow clone: flags of every node and pg.eq')
+  ctx.log('scope sweep (oracle only): %d cases' % n)
 
 def replay(ctx, rp):
   if rp.get('case', {}).get('kind') == 'flags':
     return not flag_probe(rp['case'])
+  if rp.get('case', {}).get('kind') == 'tuple':
+    return not tuple_probe(rp['case'])
+  if rp.get('case', {}).get('kind') == 'scope':
+    return not scope_probe(rp['case'])
   return D.replay_property(ctx, rp, Oracle)
 
 # ----------------------------------------------------------------------------------------------------
